@@ -4,7 +4,7 @@ EXPLANATION = ("Position-search core of the editor queries: span containment is 
                "number of siblings); is_macro_expanded is exactly 'dummy start or outside the source span'.")
 ASSUMPTIONS = [
     "sibling spans are ordered and non-overlapping (what the parser produces)",
-    "select_spanned is bounded in the number of siblings (1..4); each instance is complete for its N (loop unwound with unwinding assertions)",
+    "select_spanned: the unbounded proof is the Verus obligation (Peekable over the sibling list modelled with std's peek/next semantics, `span` closure = field read, Span::containment's contract taken from the Kani proof); the Kani instances N = 1..4 on the compiled code are its bounded twins and give concrete counterexamples",
     "termination not proved by Kani",
 ]
 NOT_UNDER_CONTRACT = ["completion::complete / find traversal of the typed AST", "suggestion scoping", "agreement of reported types with the checker", "signature_help", "get_metadata", "behaviour on Expr::Error nodes"]
@@ -26,6 +26,8 @@ def obligations(tier):
         k("gluon_base", POS, "c20__containment__exclusive_differs_only_at_end", "containment_exclusive == containment except Greater at pos == end", [S + "containment_exclusive"]),
         k("gluon_completion", COMP, "c20__macro_expanded__iff_outside_source", "is_macro_expanded(span) <=> span.start == 0 or span not inside source_span", [COMP + "::FindVisitor::is_macro_expanded"]),
     ]
+    out.append(dict(engine="verus", unit="completion", function="FindVisitor::select_spanned", name="C20/completion/FindVisitor_select_spanned", source=COMP + "::FindVisitor::select_spanned",
+                    clause="for ANY number of ordered siblings and any cursor: terminates without panic; (false, Some(x)) => x is the first sibling containing the cursor; (true, prev) => no sibling contains it, prev is the last sibling before the cursor (or the first one if the cursor precedes all), None only for an empty list"))
     ns = [1, 2, 3] if tier == "quick" else [1, 2, 3, 4]
     for n in ns:
         out.append(k("gluon_completion", COMP, "c20__select__siblings_%d" % n,
